@@ -31,6 +31,8 @@ func runC04(c *Ctx) {
 		{Kind: "add", Sec: "g", PType: "g", Rule: G[0]}, {Kind: "rm", Sec: "g", PType: "g", Rule: G[0]},
 		{Kind: "add", Sec: "g", PType: "g", Rule: G[1]}, {Kind: "add", Sec: "g", PType: "g", Rule: G[2]},
 		{Kind: "upd", Sec: "g", PType: "g", Rule: G[1], New: []string{"alice", "reader"}},
+		// an update whose new rule denotes the link of its old rule: unlinking and linking must not cancel out
+		{Kind: "upd", Sec: "g", PType: "g", Rule: G[1], New: G[1]},
 		{Kind: "adds", Sec: "g", PType: "g", Ex: true, Rules: G},
 		{Kind: "rmf", Sec: "g", PType: "g", FI: 1, Vals: []string{"book_admin"}},
 		{Kind: "clear"}, {Kind: "load"}, {Kind: "buildlinks"},
